@@ -101,7 +101,19 @@ pub fn gen_workloads(ctx: &Ctx, rng: &mut Rng) -> Vec<Workload> {
         v.push(Workload { history: h, label, base: None });
     }
     // ---- directed workloads (seed independent), spread over the shards
-    let directed = directed_workloads(ctx.thorough());
+    let mut directed = directed_workloads(ctx.thorough());
+    // (f) the free list consumed entry by entry through the length that exactly fills its page, every commit
+    // with its crash images (seeded change C02-p: at exactly that length one page too many is freed, a later
+    // commit writes over a page the durable header still reaches)
+    for (ps, idx) in [(1024u64, 0usize), (1032, 0)] {
+        if let Some(mut h) = crate::shape::freelist_walk_history(ps, idx) {
+            h.origin = "directed".into();
+            // (the list starts 25 entries above the exact-fill length and loses one or two per commit: the first
+            // sixty commits contain the passage and what follows it)
+            h.txs.truncate(62);
+            directed.push(Workload { history: h, label: format!("free-list walk through the exact-fill length at page size {}", ps), base: None });
+        }
+    }
     for (i, w) in directed.into_iter().enumerate() {
         if (i as u64 + 2) % ctx.nshards == ctx.shard {
             v.insert(0, w);
